@@ -108,6 +108,11 @@ class Fn:
                 if e.id not in self.mod.used_globs: self.mod.used_globs.append(e.id)
                 return "g_"+e.id
             raise Unsupported("name "+e.id)
+        if isinstance(e,ast.Attribute) and isinstance(e.value,ast.Name) and e.value.id not in self.vars:
+            import enum
+            obj=getattr(self.mod.py,e.value.id,None)
+            if isinstance(obj,type) and issubclass(obj,enum.Enum) and e.attr in obj.__members__ and isinstance(obj[e.attr].value,int):
+                return "(VInt (%d))"%obj[e.attr].value
         if isinstance(e,ast.Attribute):
             # class constant?
             if isinstance(e.value,ast.Name) and e.value.id in ("self","cls") and self.cls:
@@ -140,7 +145,11 @@ class Fn:
         if isinstance(e,ast.Subscript):
             a=self.ex(e.value,binds)
             if isinstance(e.slice,ast.Slice):
-                if e.slice.step is not None: raise Unsupported("step")
+                if e.slice.step is not None:
+                    st=e.slice.step
+                    if e.slice.lower is None and e.slice.upper is None and isinstance(st,ast.UnaryOp) and isinstance(st.op,ast.USub) and isinstance(st.operand,ast.Constant) and st.operand.value==1:
+                        t=self.tmp(); binds.append("%s <- py_rev_same %s ;; "%(t,a)); return t
+                    raise Unsupported("step")
                 lo=self.ex(e.slice.lower,binds) if e.slice.lower else "VNone"; hi=self.ex(e.slice.upper,binds) if e.slice.upper else "VNone"
                 t=self.tmp(); binds.append("%s <- py_slice %s %s %s ;; "%(t,a,lo,hi)); return t
             i=self.ex(e.slice,binds); t=self.tmp(); binds.append("%s <- py_getitem %s %s ;; "%(t,a,i)); return t
@@ -219,6 +228,10 @@ class Fn:
             if f.id=="bidict": return lib("new_bidict",A(0))
             if f.id in ("ord","chr","enumerate","reversed","sum") and len(e.args)==1: return lib("py_"+f.id,A(0))
             if f.id=="zip" and len(e.args)==2: return lib("py_zip",A(0),A(1))
+            if f.id=="divmod" and len(e.args)==2: return lib("py_divmod",A(0),A(1))
+            if f.id in ("min","max") and len(e.args)==2: return lib("py_"+f.id+"2",A(0),A(1))
+            if f.id=="abs" and len(e.args)==1: return lib("py_abs",A(0))
+            if f.id=="bool" and len(e.args)==1: return "(VBool (truthy %s))"%A(0)
             if f.id=="ValueError": return A(0) if e.args else "(VStr [])"
         if isinstance(f,ast.Attribute):
             if isinstance(f.value,ast.Name) and f.value.id=="ipaddress":
@@ -227,6 +240,12 @@ class Fn:
             if isinstance(f.value,ast.Name) and f.value.id=="re" and f.attr=="search" and isinstance(e.args[0],ast.Name) and e.args[0].id in self.mod.globs and isinstance(self.mod.globs[e.args[0].id],str):
                 nm=e.args[0].id; self.mod.rx_consts[nm]=self.mod.globs[nm]
                 return lib("re_search_ast","RX_"+nm,A(1))
+            if isinstance(f.value,ast.Name) and f.value.id=="re" and f.attr in ("match","search") and len(e.args)==2 and isinstance(e.args[0],ast.Constant) and isinstance(e.args[0].value,str):
+                pat=e.args[0].value; nm="LIT%d"%len(self.mod.rx_consts); 
+                for k,v in self.mod.rx_consts.items():
+                    if v==pat: nm=k
+                self.mod.rx_consts[nm]=pat
+                return lib("re_%s_ast"%f.attr,"RX_"+nm,A(1))
             if f.attr=="format":
                 o=self.ex(f.value,binds); args="(VList [%s])"%";".join(self.ex(a,binds) for a in e.args)
                 kw="(VDict [%s])"%";".join("(S_ %s, %s)"%(cq(k.arg),self.ex(k.value,binds)) for k in e.keywords)
@@ -302,7 +321,7 @@ class Fn:
         core=" call (%s\n e_ <- ((\n%s) : ctl (%s)) ;; let %s := e_ in %s)"%(init,body,self.ety(),self.pat(),tail)
         if rec:
             return "Fixpoint %s (py_call : pyval -> pyval -> res) (fuel:nat) %s {struct fuel} : res :=\n match fuel with O => Exc OutOfFuel | S fuel =>\n%s\n end."%(name,ps,core)
-        return "Definition %s (py_call : pyval -> pyval -> res) (fuel:nat) %s : res :=\n%s."%(name,ps,core)
+        return "Definition %s (py_call : pyval -> pyval -> res) (fuel:nat) %s : res :=\n%s.\n#[global] Hint Unfold %s : gen_db."%(name,ps,core,name)
     def stub(self, reason):
         """a refused function keeps its name and arity (so that unrelated dependents still compile) but can only fail"""
         ps=" ".join("(v_%s:pyval)"%p for p in self.params)
